@@ -44,12 +44,15 @@ class Summaries:
         self.returns = {}       # (fid, param) -> kind
         self.absorbs = {}       # (fid, param) -> True : param is stored into `self` (first param) by the callee
         self.sites = {}         # fid -> FnAlias (last run)
+        self.arg_fresh = {}     # (fid, param) -> True when EVERY call site in the package passes a fresh object (private functions only)
+        self._obs = {}
         self.fids = [f for f in repo.functions if module_filter is None or module_filter(f)]
         self._fix()
 
     def _fix(self):
         for it in range(8):
             changed = False
+            self._obs = {}
             for fid in self.fids:
                 fa = FnAlias(self, fid)
                 fa.run()
@@ -59,6 +62,9 @@ class Summaries:
                         continue
                     if (fid, p) not in self.mutates:
                         self.mutates[(fid, p)] = w
+                        changed = True
+                    elif w.get('deep') and not self.mutates[(fid, p)].get('deep'):
+                        self.mutates[(fid, p)]['deep'] = True
                         changed = True
                 for p, k in fa.returned.items():
                     old = self.returns.get((fid, p))
@@ -70,6 +76,10 @@ class Summaries:
                     if (fid, p) not in self.absorbs:
                         self.absorbs[(fid, p)] = True
                         changed = True
+            fresh = {k: v for k, v in self._obs.items() if v and k[0].split(':')[-1].split('.')[-1].startswith('_')}
+            if fresh != self.arg_fresh:
+                self.arg_fresh = fresh
+                changed = True
             if not changed:
                 break
 
@@ -159,14 +169,25 @@ class FnAlias:
         wantn = 'shallow' in kinds
         return {r for r, k in val if (k == 0 and want0) or (k > 0 and wantn)}
 
-    def note_mut(self, node, val, what, via=None):
-        for r in sorted(self.roots(val, ('ref',))):
+    def note_mut(self, node, val, what, via=None, base=None, also_shallow1=False):
+        """`base`: the expression through which the object is modified.  A modification through anything but the bare
+        parameter name reaches *below* the parameter's top-level object (`deep`): such a callee also damages the caller's
+        data when it is handed a fresh list/dict whose ELEMENTS are the caller's objects (depth 1)."""
+        deep = not (isinstance(base, ast.Name) and base.id in self.params) if base is not None else True
+        if via is not None:
+            deep = deep or bool(self.s.mutates.get(via, {}).get('deep'))
+        roots = set(self.roots(val, ('ref',)))
+        if also_shallow1:
+            roots |= {r for r, k in val if k == 1}
+        for r in sorted(roots):
             paired = node in self._paired_nodes
             self.mut_sites.append((node, r, what, paired))
             if paired:
                 continue
             if r not in self.mutated:
-                self.mutated[r] = {'node': node, 'what': what, 'via': via}
+                self.mutated[r] = {'node': node, 'what': what, 'via': via, 'deep': deep}
+            elif deep and not self.mutated[r].get('deep'):
+                self.mutated[r]['deep'] = True
 
     def shallow_of(self, val):
         """a fresh container holding these values"""
@@ -231,7 +252,8 @@ class FnAlias:
             if e.attr in self.s.scalar_fields:
                 return set()            # immutable scalar by schema: aliasing it is harmless
             out = self.elem_of(b)
-            if e.attr in self.s.input_fields and any(k <= 1 for r, k in b):
+            if e.attr in self.s.input_fields and any(k <= 1 for r, k in b) and \
+                    not all(self.s.arg_fresh.get((self.fid, r)) for r, k in b if k <= 1):
                 # the carrier is an existing object (or a shallow copy of one): the content of these fields is
                 # data of the caller's diffs/documents, whatever route the carrier took to get here
                 out = out | {(DIFFDATA, 0)}
@@ -310,7 +332,7 @@ class FnAlias:
             recv = self.ev(c.func.value, env)
             m = c.func.attr
             if m in MUTATORS and self.roots(recv, ('ref',)):
-                self.note_mut(c, recv, '%s.%s(...)' % (ast.unparse(c.func.value), m))
+                self.note_mut(c, recv, '%s.%s(...)' % (ast.unparse(c.func.value), m), base=c.func.value)
             if m in ABSORB_METHODS or m in MUTATORS:
                 # a local (fresh/shallow) container absorbs references passed to it
                 if isinstance(c.func.value, ast.Name) and allargs and not self.roots(recv, ('ref',)):
@@ -339,11 +361,16 @@ class FnAlias:
                 if heuristic and isinstance(c.func, ast.Attribute) and argexpr is c.func.value:
                     continue        # receiver type unknown: a same-named method of a package class proves nothing about it
                 v = self.ev(argexpr, env) if not isinstance(argexpr, set) else argexpr
+                if not heuristic:
+                    self.s._obs[(fid, pname)] = self.s._obs.get((fid, pname), True) and not v
                 if not v:
                     continue
-                if (fid, pname) in self.s.mutates and self.roots(v, ('ref',)):
-                    self.note_mut(c, v, 'passes %s to %s (parameter %s is mutated there)' % (ast.unparse(argexpr)[:40], fid, pname),
-                                  via=(fid, pname))
+                if (fid, pname) in self.s.mutates:
+                    deep = bool(self.s.mutates[(fid, pname)].get('deep'))
+                    if self.roots(v, ('ref',)) or (deep and any(k == 1 for r, k in v)):
+                        self.note_mut(c, v, 'passes %s to %s (parameter %s is mutated there%s)' % (
+                            ast.unparse(argexpr)[:40], fid, pname, ', below its top level' if deep else ''),
+                            via=(fid, pname), base=argexpr if not isinstance(argexpr, set) else None, also_shallow1=deep)
                 k = self.s.returns.get((fid, pname))
                 if k is not None:
                     out |= {(r, min(kk + k, 3)) for r, kk in v}
@@ -375,7 +402,7 @@ class FnAlias:
         elif isinstance(t, (ast.Subscript, ast.Attribute)):
             base = self.ev(t.value, env)
             if self.roots(base, ('ref',)):
-                self.note_mut(node, base, 'store to %s' % ast.unparse(t))
+                self.note_mut(node, base, 'store to %s' % ast.unparse(t), base=t.value)
             elif isinstance(t.value, ast.Name) and val:
                 for r in sorted(self.roots(val)):
                     direct = any(r2 == r and k == 0 for r2, k in val)
@@ -415,18 +442,18 @@ class FnAlias:
                 cur = env.get(st.target.id, set())
                 if self.roots(cur, ('ref',)) and isinstance(st.value, (ast.List, ast.Dict, ast.Set, ast.ListComp, ast.DictComp, ast.SetComp)):
                     # in-place for lists/dicts/sets; plain rebinding for str/int (types unknown: only container displays count)
-                    self.note_mut(st, cur, 'augmented assignment %s' % ast.unparse(st)[:50])
+                    self.note_mut(st, cur, 'augmented assignment %s' % ast.unparse(st)[:50], base=st.target)
                 env[st.target.id] = set(cur) | self.copy_of(v)
             else:
                 base = self.ev(st.target.value, env)
                 if self.roots(base, ('ref',)):
-                    self.note_mut(st, base, 'augmented store %s' % ast.unparse(st)[:50])
+                    self.note_mut(st, base, 'augmented store %s' % ast.unparse(st)[:50], base=st.target.value)
         elif isinstance(st, ast.Delete):
             for t in st.targets:
                 if isinstance(t, (ast.Subscript, ast.Attribute)):
                     base = self.ev(t.value, env)
                     if self.roots(base, ('ref',)):
-                        self.note_mut(st, base, 'del %s' % ast.unparse(t))
+                        self.note_mut(st, base, 'del %s' % ast.unparse(t), base=t.value)
         elif isinstance(st, ast.Expr):
             self.ev(st.value, env)
         elif isinstance(st, ast.Return):
